@@ -12,7 +12,7 @@ import (
 
 func init() {
 	register(&Property{
-		ID: "C08",
+		ID:          "C08",
 		Explanation: "Fail-closed control flow of signature checking, decided on every path: (fail-closed) in signature.VerifyString, Verify (and the closure it returns) and VerifyHeader, every return whose error operand is the nil literal and that is not inside the NoneKey arm lies only on paths that crossed the success edge of a verification primitive of the crypto modules (a Verify* function/method of aead.dev/minisign or go-crypto/openpgp, or the repo's own VerifyString) - a must-dataflow over go/cfg; every non-None arm contains such a primitive; (verify-before-use) in recovery.Index the verifyHeader callback's success edge dominates indexHeader and follows decryptHeader, in Fetch/Query signature.VerifyHeader's success edge dominates every use of the header, at every call site of recovery.Index the verifier argument either fails closed around signature.VerifyHeader or the sibling decrypt callback overwrites the header wholesale from the operation's own slice, VerifyHeader replaces the outer header only after VerifyString succeeded, and Fetch checks the content verifier after the copy.",
 		NotDecided:  "Unforgeability and what the crypto libraries accept; bytes already written to the destination before a failing content verification (streaming design, the error is returned); tar parsing of hostile bytes.",
 		Assumptions: []string{"functions named Verify* in aead.dev/minisign and ProtonMail/go-crypto are sound verifiers", "callbacks passed to recovery.Index are function literals at all call sites (checked)"},
@@ -31,11 +31,11 @@ func isVerifyPrimitive(o types.Object) bool {
 }
 
 type failClosed struct {
-	c       *Ctx
-	rule    string
-	isPrim  func(o types.Object) bool
-	exempt  func(f *FuncInfo, ret *ast.ReturnStmt) bool
-	prefix  string
+	c      *Ctx
+	rule   string
+	isPrim func(o types.Object) bool
+	exempt func(f *FuncInfo, ret *ast.ReturnStmt) bool
+	prefix string
 }
 
 func (fc *failClosed) primIn(info *types.Info, n ast.Node) bool {
@@ -152,91 +152,94 @@ func (fc *failClosed) check(f *FuncInfo, label string) {
 	}
 }
 
-func ruleC08FailClosed(c *Ctx) {
-	const rule = "C08.fail-closed"
-	c.floor(rule, 8, "nil-error returns and non-None arms of VerifyString / Verify / VerifyHeader")
-	none := c.constObj("pkg/config", "NoneKey")
-	sigFormats := c.knownFormats("KnownSignatureFormats")
-	verifyString := c.fn("pkg/signature", "VerifyString")
-	verify := c.fn("pkg/signature", "Verify")
-	verifyHeader := c.fn("pkg/signature", "VerifyHeader")
-	if none == nil || verifyString == nil || verify == nil || verifyHeader == nil {
-		return
-	}
-	for _, f := range []*FuncInfo{verifyString, verify, verifyHeader} {
-		fmtParam := paramVar(f, "signatureFormat")
-		if fmtParam == nil {
-			c.unresolved("parameter signatureFormat of %s", f.Name)
-			continue
+func ruleC08FailClosed(c *Ctx) { ruleFailClosedAs("C08.fail-closed")(c) }
+
+func ruleFailClosedAs(rule string) func(*Ctx) {
+	return func(c *Ctx) {
+		c.floor(rule, 8, "nil-error returns and non-None arms of VerifyString / Verify / VerifyHeader")
+		none := c.constObj("pkg/config", "NoneKey")
+		sigFormats := c.knownFormats("KnownSignatureFormats")
+		verifyString := c.fn("pkg/signature", "VerifyString")
+		verify := c.fn("pkg/signature", "Verify")
+		verifyHeader := c.fn("pkg/signature", "VerifyHeader")
+		if none == nil || verifyString == nil || verify == nil || verifyHeader == nil {
+			return
 		}
-		info := f.Pkg.TypesInfo
-		tables := c.switchesOn(f, fmtParam)
-		fl := c.flow(f)
-		exempt := func(g *FuncInfo, ret *ast.ReturnStmt) bool {
-			if g != f {
-				return false
+		for _, f := range []*FuncInfo{verifyString, verify, verifyHeader} {
+			fmtParam := paramVar(f, "signatureFormat")
+			if fmtParam == nil {
+				c.unresolved("parameter signatureFormat of %s", f.Name)
+				continue
 			}
-			for _, t := range tables {
-				for _, arm := range t.Arms {
-					for _, cc := range arm.Clauses {
-						if ret.Pos() >= cc.Pos() && ret.End() <= cc.End() {
-							onlyNone := len(arm.Labels) > 0
-							for _, l := range arm.Labels {
-								if l != none {
-									onlyNone = false
+			info := f.Pkg.TypesInfo
+			tables := c.switchesOn(f, fmtParam)
+			fl := c.flow(f)
+			exempt := func(g *FuncInfo, ret *ast.ReturnStmt) bool {
+				if g != f {
+					return false
+				}
+				for _, t := range tables {
+					for _, arm := range t.Arms {
+						for _, cc := range arm.Clauses {
+							if ret.Pos() >= cc.Pos() && ret.End() <= cc.End() {
+								onlyNone := len(arm.Labels) > 0
+								for _, l := range arm.Labels {
+									if l != none {
+										onlyNone = false
+									}
 								}
+								return onlyNone
 							}
-							return onlyNone
 						}
 					}
 				}
+				// if-form: `if signatureFormat == config.NoneKey { return nil }`
+				okk, reach := fl.guardedBy(ret, func(ft Fact) bool {
+					be, ok := ast.Unparen(ft.E).(*ast.BinaryExpr)
+					if !ok || be.Op != token.EQL || !ft.Pos {
+						return false
+					}
+					return objOfIdent(info, be.X) == types.Object(fmtParam) && constOf(info, be.Y) == none ||
+						objOfIdent(info, be.Y) == types.Object(fmtParam) && constOf(info, be.X) == none
+				}, nil)
+				return reach && okk
 			}
-			// if-form: `if signatureFormat == config.NoneKey { return nil }`
-			okk, reach := fl.guardedBy(ret, func(ft Fact) bool {
-				be, ok := ast.Unparen(ft.E).(*ast.BinaryExpr)
-				if !ok || be.Op != token.EQL || !ft.Pos {
-					return false
+			isPrim := func(o types.Object) bool {
+				if isVerifyPrimitive(o) {
+					return true
 				}
-				return objOfIdent(info, be.X) == types.Object(fmtParam) && constOf(info, be.Y) == none ||
-					objOfIdent(info, be.Y) == types.Object(fmtParam) && constOf(info, be.X) == none
-			}, nil)
-			return reach && okk
-		}
-		isPrim := func(o types.Object) bool {
-			if isVerifyPrimitive(o) {
-				return true
+				// VerifyHeader delegates to the repository's own VerifyString
+				return f == verifyHeader && verifyString.Obj != nil && o == types.Object(verifyString.Obj)
 			}
-			// VerifyHeader delegates to the repository's own VerifyString
-			return f == verifyHeader && verifyString.Obj != nil && o == types.Object(verifyString.Obj)
-		}
-		fc := &failClosed{c: c, rule: rule, isPrim: isPrim, exempt: exempt}
-		fc.check(f, "")
-		// every non-None arm contains a primitive (directly or in the closure it returns)
-		for _, t := range tables {
-			for _, k := range sigFormats {
-				if k == none {
-					continue
+			fc := &failClosed{c: c, rule: rule, isPrim: isPrim, exempt: exempt}
+			fc.check(f, "")
+			// every non-None arm contains a primitive (directly or in the closure it returns)
+			for _, t := range tables {
+				for _, k := range sigFormats {
+					if k == none {
+						continue
+					}
+					arm := t.armFor(k)
+					construct := "arm " + k.Name()
+					if arm == nil {
+						c.bad(rule, f, construct, t.Stmt.Pos(), "no arm for signature format %s", k.Name())
+						continue
+					}
+					has := false
+					for _, st := range arm.Body {
+						ast.Inspect(st, func(m ast.Node) bool {
+							if call, ok := m.(*ast.CallExpr); ok && isVerifyPrimitive(calleeObj(info, call)) {
+								has = true
+							}
+							return !has
+						})
+					}
+					c.verdictIf(has, rule, f, construct, arm.Clauses[0].Pos(), "arm calls a verification primitive of the crypto module", "arm for "+k.Name()+" never calls a verification primitive")
 				}
-				arm := t.armFor(k)
-				construct := "arm " + k.Name()
-				if arm == nil {
-					c.bad(rule, f, construct, t.Stmt.Pos(), "no arm for signature format %s", k.Name())
-					continue
-				}
-				has := false
-				for _, st := range arm.Body {
-					ast.Inspect(st, func(m ast.Node) bool {
-						if call, ok := m.(*ast.CallExpr); ok && isVerifyPrimitive(calleeObj(info, call)) {
-							has = true
-						}
-						return !has
-					})
-				}
-				c.verdictIf(has, rule, f, construct, arm.Clauses[0].Pos(), "arm calls a verification primitive of the crypto module", "arm for "+k.Name()+" never calls a verification primitive")
 			}
-		}
-		if f != verifyHeader && len(tables) == 0 {
-			c.unresolved("no switch over signatureFormat in %s", f.Name)
+			if f != verifyHeader && len(tables) == 0 {
+				c.unresolved("no switch over signatureFormat in %s", f.Name)
+			}
 		}
 	}
 }
